@@ -10,7 +10,7 @@ or a margin's reference size in layout.py breaks these proofs at the next run.
 
 Only property theorems live here; lemmas are in `Lemmas/LayoutSpec.lean`, `Lemmas/LayoutScale.lean`.
 -/
-import PdfVerif.Lemmas.LayoutScale2
+import PdfVerif.Lemmas.LayoutScale3
 
 namespace PdfVerif.Props.C09
 open PdfVerif PdfVerif.Gen.Layout PdfVerif.Layout
@@ -173,18 +173,25 @@ theorem C09_scale_analyze_none {le : Cmp} {s : Rat} (hs : 0 < s) (p : LAParams) 
     analyze le p (scaleBB s pageBB) (items.map (scaleItem s)) = scaleResult s (analyze le p pageBB items) :=
   analyze_none_scale hs p hbf pageBB hp items
 
-/-- With a numeric `boxes_flow` the stages up to the text boxes are scale invariant (`C09_scale_lines`,
-`C09_scale_textlines`) and so is everything the heap stage computes with (`C09_scale_predicates`: `dist`
-scales by `s²`, the group keys by `s`, `isany` asks `Plane.find`, which is grid independent as a list);
-the simulation argument through the `group_textboxes` loop is not carried out in Lean - that stage is
-covered by the scale runs of the harness only.  `_partial`: the part of the hierarchy stage that is proved. -/
-theorem C09_scale_hierarchy_partial {s : Rat} (hs : 0 < s) (bf : Rat) (a b : BB) :
-    dist (scaleBB s a) (scaleBB s b) = s * s * dist a b
-    ∧ (groupKey false bf (scaleBB s a) < groupKey false bf (scaleBB s b) ↔ groupKey false bf a < groupKey false bf b)
-    ∧ (groupKey true bf (scaleBB s a) < groupKey true bf (scaleBB s b) ↔ groupKey true bf a < groupKey true bf b) := by
-  refine ⟨dist_scale hs a b, ?_, ?_⟩
-  · simp only [groupKey, Bool.false_eq_true, if_false, key_lrtb_scale hs, lt_scale hs]
-  · simp only [groupKey, if_true, key_tbrl_scale hs, lt_scale hs]
+/-- **Scale invariance of the hierarchy stage.**  `group_textboxes` on the scaled boxes performs the same
+merges in the same order (simulation of the heap loop: distances scale by `s²`, so the heap order is
+unchanged; `isany` asks `Plane.find`, which is grid independent): same hierarchy, scaled; same flags. -/
+theorem C09_scale_textboxes {s : Rat} (hs : 0 < s) (pageBB : BB) (hp : WfPage pageBB) (boxes : List Box)
+    (hwf : ∀ b ∈ boxes, WfBB b.bb) :
+    groupTextboxes HEntry.le (scaleBB s pageBB) (boxes.map (scaleBox s))
+      = ((groupTextboxes HEntry.le pageBB boxes).1.map (scaleNode s), (groupTextboxes HEntry.le pageBB boxes).2) :=
+  groupTextboxes_scale hs pageBB hp boxes hwf
+
+/-- **Scale invariance of the whole outcome** (the last sentence of C09, for every `s > 0`, in particular
+every power of two; every item list; every LAParams incl. numeric `boxes_flow`; well-formed page box):
+`analyze` of the page with all coordinates multiplied by `s` is the result of `analyze` with all
+coordinates multiplied by `s` - the same lines, word spaces, text boxes, order of lines, group hierarchy,
+numbering and child order.  The heap of `group_textboxes` is ordered by `HEntry.le`, i.e. the
+implementation's tuple order with creation numbers in place of `id()` (for inputs without distance ties
+that is the implementation's order whatever `id()` returns). -/
+theorem C09_scale {s : Rat} (hs : 0 < s) (p : LAParams) (pageBB : BB) (hp : WfPage pageBB) (items : List Item) :
+    analyze HEntry.le p (scaleBB s pageBB) (items.map (scaleItem s)) = scaleResult s (analyze HEntry.le p pageBB items) :=
+  analyze_scale hs p pageBB hp items
 
 /-! ### non-vacuity -/
 
